@@ -29,6 +29,12 @@ CLAIMED = {
         "note": "Clause (c) compares only files whose path names one of the original packages (aggregate index files are not attributed). Clause (d) accepts any failing run. Snapshots are JSON renderings of the IR (every exported field, ordered-map order included).",
         "design_ref": "DESIGN.md §5 C07",
     },
+    "C15": {
+        "technique": "deterministic simulation: seeded histories of configurable passes (built through the real YAML loader, applied by the real Passes.Process under seeded map-order schedules) checked step by step against executable reference models on a plain-data mirror of the IR (effect, frame, absent-target, input-not-modified); history shrinking and replay",
+        "text": "Reference-model checking of sampled pass histories: 19 models written from the documentation and the statement's matching rules, independent of cog's visitor and matching helpers. Sampled, not enumerated.",
+        "note": "Situations the documentation leaves open are skipped and counted in evidence (an object of the new name already exists, several objects match case-insensitively, duplicate_object with a case-variant source, two default keys on one field). For name prefixing, enum member names and hint payloads are not judged. Transformation trail strings are ignored on targeted objects and must be unchanged elsewhere.",
+        "design_ref": "DESIGN.md §5 C15",
+    },
     "C18": {
         "technique": "deterministic simulation: a monitor on every DeepCopy event of simulated pipeline runs (copy seam inserted by the instrumenter) plus node-by-node copying of fixture and generated IR graphs; reflective equality and disjointness-of-mutable-locations oracles; replay",
         "text": "Every outermost DeepCopy call of real pipeline runs (with builders, veneers, converters) and every DeepCopy method reachable in 47 fixture graphs and in generated contexts is judged: copy equals receiver field by field; no slice array, map or pointer target is reachable from both through declared fields.",
